@@ -72,6 +72,9 @@ func (r *runner) mutations(f *families, mine func() bool, stop func(string) bool
 	for mi, m := range msgs {
 		m := m
 		L := len(m.b)
+		// quick: the container messages (their payload is the header / transaction encoding that
+		// is substituted in full on its own) get a boundary subset of the 256 values
+		reduced := !c.Thorough() && (m.kind == "block" || m.kind == "txs")
 		if mine() {
 			r.checkParse(m.kind, m.b, func() string { return m.name })
 		}
@@ -82,8 +85,19 @@ func (r *runner) mutations(f *families, mine func() bool, stop func(string) bool
 		}
 		mut := make([]byte, L)
 		for i := 0; i < L; i++ {
+			o := m.b[i]
 			for v := 0; v < 256; v++ {
-				if byte(v) == m.b[i] || !mine() {
+				if byte(v) == o {
+					continue
+				}
+				if reduced {
+					switch byte(v) {
+					case 0x00, 0x01, 0x7f, 0x80, 0xff, o ^ 0x01, o ^ 0x80, o + 1, o - 1:
+					default:
+						continue
+					}
+				}
+				if !mine() {
 					continue
 				}
 				copy(mut, m.b)
@@ -231,9 +245,15 @@ func (r *runner) runSpaceCase(name string, idx int64) bool {
 	case "txs":
 		txsSpace().runOne(r, idx)
 	case "header-quick":
+		headerSpaceQuick().runOne(r, idx)
+	case "header-mid":
 		headerSpace(false).runOne(r, idx)
 	case "header-full":
 		headerSpace(true).runOne(r, idx)
+	case "tx-quick":
+		txSpaceQuick().runOne(r, idx)
+	case "group-quick":
+		groupSpaceQuick().runOne(r, idx)
 	case "header-mini":
 		headerMiniSpace().runOne(r, idx)
 	case "group":
@@ -252,7 +272,9 @@ func (r *runner) runSpaceCase(name string, idx int64) bool {
 	return true
 }
 
-func (r *runner) roundTrips() {
+// roundTrips runs the small spaces (big=false) or the large ones (big=true); false when the
+// deadline stopped it.
+func (r *runner) roundTrips(big bool) bool {
 	c := r.c
 	sizes := map[string]int64{}
 	ok := true
@@ -265,36 +287,43 @@ func (r *runner) roundTrips() {
 		ok = run()
 		r.lap("RT-" + name + r.local)
 	}
-	ts, ls, gs, bs := txSpace(), txsSpace(), groupSpace(false), blockSpace()
-	ftx, fh, fg := fixTxSpace(), fixHeaderSpace(), fixGroupSpace()
-	do(ftx.name, ftx.total(), func() bool { return ftx.runAll(r) })
-	do(fh.name, fh.total(), func() bool { return fh.runAll(r) })
-	do(fg.name, fg.total(), func() bool { return fg.runAll(r) })
-	do(bs.name, bs.total(), func() bool { return bs.runAll(r) })
-	do(ls.name, ls.total(), func() bool { return ls.runAll(r) })
-	do(ts.name, ts.total(), func() bool { return ts.runAll(r) })
-	do(gs.name, gs.total(), func() bool { return gs.runAll(r) })
+	if !big {
+		ls, bs := txsSpace(), blockSpace()
+		ftx, fh, fg := fixTxSpace(), fixHeaderSpace(), fixGroupSpace()
+		do(ftx.name, ftx.total(), func() bool { return ftx.runAll(r) })
+		do(fh.name, fh.total(), func() bool { return fh.runAll(r) })
+		do(fg.name, fg.total(), func() bool { return fg.runAll(r) })
+		do(bs.name, bs.total(), func() bool { return bs.runAll(r) })
+		do(ls.name, ls.total(), func() bool { return ls.runAll(r) })
 
-	// second pass of the time-bearing objects with a non-UTC local zone
-	saved := time.Local
-	r.local = localOverride
-	setLocal(localOverride)
-	hm, gl := headerMiniSpace(), groupSpace(false)
-	do(hm.name, hm.total(), func() bool { return hm.runAll(r) })
-	if c.Thorough() {
-		do(gl.name, gl.total(), func() bool { return gl.runAll(r) })
-		hq := headerSpace(false)
-		do(hq.name, hq.total(), func() bool { return hq.runAll(r) })
+		// second pass of the time-bearing objects with a non-UTC local zone
+		saved := time.Local
+		r.local = localOverride
+		setLocal(localOverride)
+		hm := headerMiniSpace()
+		do(hm.name, hm.total(), func() bool { return hm.runAll(r) })
+		if c.Thorough() {
+			gl, hq := groupSpaceQuick(), headerSpaceQuick()
+			do(gl.name, gl.total(), func() bool { return gl.runAll(r) })
+			do(hq.name, hq.total(), func() bool { return hq.runAll(r) })
+		}
+		time.Local = saved
+		r.local = ""
+		c.Note("roundtrip_space_sizes_small", sizes)
+		return ok
 	}
-	time.Local = saved
-	r.local = ""
-
-	hs := headerSpace(c.Thorough())
+	ts, gs, hs := txSpace(), groupSpace(false), headerSpace(true)
+	if !c.Thorough() {
+		ts, gs, hs = txSpaceQuick(), groupSpaceQuick(), headerSpaceQuick()
+	}
+	do(gs.name, gs.total(), func() bool { return gs.runAll(r) })
+	do(ts.name, ts.total(), func() bool { return ts.runAll(r) })
 	do(hs.name, hs.total(), func() bool { return hs.runAll(r) })
-	c.Note("roundtrip_space_sizes", sizes)
+	c.Note("roundtrip_space_sizes_big", sizes)
 	if c.Shard == 0 {
 		x, d := hs.build(hs.total() / 3)
 		b, _ := types.MarshalBlockHeader(x)
 		c.Sample(map[string]interface{}{"family": "roundtrip", "space": hs.name, "idx": hs.total() / 3, "digits": hs.describe(d), "bytes": len(b)})
 	}
+	return ok
 }
